@@ -236,7 +236,7 @@ def run(ctx, escalated=False):
     n = 250 if quick else 6000
     for k in range(n):
         adv = ctx.rng.random() < 0.6
-        c = expprop.one_case(ctx, k, adversarial=adv, monitor=mon, pgen=False)
+        c = expprop.one_case(ctx, k, adversarial=adv, monitor=mon, pgen=False, odd_root=True)
         if c is not None:
             c.data["kind"] = "study"
             cases.append(c)
